@@ -1437,6 +1437,51 @@ func fillDigits(m [][]uint64, sizes []int) {
 	}
 }
 
+// NILSIB control: the constructor tolerates a nil key set, the With method does not
+type fxKeyed struct {
+	keys  rlwe.EvaluationKeySet
+	index map[uint64]bool
+}
+
+func NewFxKeyed(keys rlwe.EvaluationKeySet) *fxKeyed {
+	k := &fxKeyed{index: map[uint64]bool{}}
+	k.keys = keys
+	if !utils.IsNil(keys) {
+		for _, g := range keys.GetGaloisKeysList() {
+			k.index[g] = true
+		}
+	}
+	return k
+}
+
+func (k fxKeyed) WithKeys(keys rlwe.EvaluationKeySet) *fxKeyed {
+	idx := map[uint64]bool{}
+	for _, g := range keys.GetGaloisKeysList() {
+		idx[g] = true
+	}
+	return &fxKeyed{keys: keys, index: idx}
+}
+
+// EQFIELDS control: Equal forgets the order
+type fxSet struct {
+	levels []int
+	order  int
+}
+
+func (s fxSet) Order() int { return s.order }
+
+func (s fxSet) Equal(o *fxSet) bool {
+	if len(s.levels) != len(o.levels) {
+		return false
+	}
+	for i := range s.levels {
+		if s.levels[i] != o.levels[i] {
+			return false
+		}
+	}
+	return true
+}
+
 `
 
 // control runs scan over the fixture and demands a violation whose key contains each of the wanted substrings.
